@@ -749,6 +749,9 @@ func runC07(r *Run) {
 	r.rule("R12", "a cut at a position taken from elsewhere is bounded on the value that is cut: where a function compares such a position with the length of some sequence ahead of the cut, it is the length of the sequence it cuts (contradiction rule over every function of the module)", func() {
 		sliceBoundOnItsOwnValueRule(r, "*")
 	})
+	r.rule("R14", "a position found in a tail of a text is a position in that tail: wherever the result of strings/bytes Index… over s[low:] (merged with other positions, shifted by constants or lengths) is used to index or cut s itself, low has been added back — otherwise a scan over the occurrences can step backwards and never end (every function of the module; the never-hangs clause for the header-value scanners, E4)", func() {
+		positionInSuffixIsRebasedRule(r, "*")
+	})
 	r.rule("R6", "offset accesses are not evaluated ahead of the guard that bounds them (contradiction rule over every function of the module)", func() { offsetGuardRule(r) })
 
 	if r.Tier == "thorough" {
